@@ -430,6 +430,36 @@ def valuations(j, rng, n):
                 r5 = np.asarray(r5, dtype=float)
                 ok = r5.shape == want.shape and float(np.max(np.abs(r5 - want))) <= TOL
                 check(j, ok, site, feat, "differs-from-the-rotation-of-exp(S)", dict(detail, got=r5.tolist()), ("val", site, bd))
+        # two-argument forms with the REVERSED unit generator (-u, -1): the rotation by -theta
+        if th > 0:
+            for site, fn, want in (("base.trexp(-unit so3,theta)", lambda: b.trexp(-u, th), T[:3, :3].T),
+                                   ("base.trexp(skew(-unit),theta)", lambda: b.trexp(b.skew(-u), th), T[:3, :3].T),
+                                   ("base.trexp2(-1,theta)", lambda: b.trexp2(-1.0, abs(th2_)), R2.T if th2_ > 0 else R2),
+                                   ("base.trexp2([-1],theta)", lambda: b.trexp2([-1.0], abs(th2_)), R2.T if th2_ > 0 else R2),
+                                   ("base.trexp2(skew(-1),theta)", lambda: b.trexp2(b.skew(-1.0), abs(th2_)), R2.T if th2_ > 0 else R2),
+                                   ("base.trexp2(+1,theta)", lambda: b.trexp2(1.0, abs(th2_)), R2 if th2_ > 0 else R2.T)):
+                r6 = guard(j, site, feat, detail, ("val", site, bd), fn)
+                if r6 is not None:
+                    r6 = np.asarray(r6, dtype=float)
+                    ok = r6.shape == want.shape and float(np.max(np.abs(r6 - want))) <= TOL
+                    check(j, ok, site, feat, "not-the-rotation-by-minus-theta", dict(detail, got=r6.tolist()), ("val", site, bd))
+        # ONE twist exponentiated with a vector of magnitudes: one motion per magnitude (class methods, list and ndarray)
+        if 0 < th and tm <= 1e3:
+            Su = S / th
+            mags_ = [th, 0.5 * th, -0.3]
+            for site, fn, dim in (("Twist3.exp(vector)", lambda: Twist3(Su).exp(mags_), 3), ("Twist3.exp(ndarray)", lambda: Twist3(Su).exp(np.array(mags_)), 3),
+                                  ("Twist2.exp(vector)", lambda: Twist2(np.r_[Su[0], Su[1], 1.0]).exp(mags_), 2),
+                                  ("Twist2.exp(ndarray)", lambda: Twist2(np.r_[Su[0], Su[1], 1.0]).exp(np.array(mags_)), 2)):
+                r7 = guard(j, site, feat, detail, ("val", site, bd), fn)
+                if r7 is not None:
+                    try:
+                        ok = len(r7) == len(mags_)
+                        for i_, m_ in enumerate(mags_):
+                            ref = b.trexp(Su * m_) if dim == 3 else b.trexp2(np.r_[Su[0], Su[1], 1.0] * m_)
+                            ok = ok and float(np.max(np.abs(np.asarray(r7[i_].A, dtype=float) - ref))) <= TOL * max(1.0, tm)
+                    except Exception:  # noqa: BLE001
+                        ok = False
+                    check(j, ok, site, feat, "not-one-motion-per-magnitude", detail, ("val", site, bd))
         # exp(S, theta) = exp(theta S) for a unit twist; one-parameter subgroup
         if th > 0:
             r3 = guard(j, "base.trexp(unit,theta)", feat, detail, ("val", "unit", bd, tb), lambda: b.trexp(S / th, th))
